@@ -13,7 +13,7 @@ namespace BB
 /-! ### evaluating one block -/
 
 /-- an evaluated block has as many samples as the block says -/
-theorem Blk.eval?_length (blk : Blk) (xs : List ℚ) (h : blk.eval? = some xs) : xs.length = blk.len := by
+theorem Blk.evalLength (blk : Blk) (xs : List ℚ) (h : blk.eval? = some xs) : xs.length = blk.len := by
   cases blk with
   | raw ys => simp only [Blk.eval?, Option.some.injEq] at h; subst h; rfl
   | call fn args sr n =>
@@ -24,7 +24,7 @@ theorem Blk.eval?_length (blk : Blk) (xs : List ℚ) (h : blk.eval? = some xs) :
     · simp at h
 
 /-- a block of a function of shape `zeros` (`PulseAtoms.waituntil`) evaluates to `n` zeros -/
-theorem Blk.eval?_zeros (fn : Fn) (args : List Val) (sr : ℚ) (n : ℕ) (h : fn.shape = .zeros) :
+theorem Blk.evalZeros (fn : Fn) (args : List Val) (sr : ℚ) (n : ℕ) (h : fn.shape = .zeros) :
     Blk.eval? (.call fn args sr n) = some (List.replicate n 0) := by
   simp only [Blk.eval?, h, Gen.waituntil]
   congr 1
@@ -32,7 +32,7 @@ theorem Blk.eval?_zeros (fn : Fn) (args : List Val) (sr : ℚ) (n : ℕ) (h : fn
 
 /-- a block of a function of shape `ramp` with two numeric arguments evaluates to the generated
     `PulseAtoms.ramp` kernel on the points `0..n-1` -/
-theorem Blk.eval?_ramp (fn : Fn) (a c sr : ℚ) (n : ℕ) (h : fn.shape = .ramp) :
+theorem Blk.evalRamp (fn : Fn) (a c sr : ℚ) (n : ℕ) (h : fn.shape = .ramp) :
     Blk.eval? (.call fn [.num a, .num c] sr n) =
       some ((List.range n).map (fun k => Gen.ramp a c sr ((n : ℤ) : ℚ) k)) := by
   simp only [Blk.eval?, h]
@@ -117,7 +117,7 @@ theorem evalBlocks_lengths (l : List Blk) (xss : List (List ℚ)) (h : evalBlock
     simp only [List.getElem_map]
     have hi : i < l.length := by simpa using h2
     have hx : i < xss.length := by simpa using h1
-    exact Blk.eval?_length _ _ (hget i hi hx)
+    exact Blk.evalLength _ _ (hget i hi hx)
 
 /-! ### where the samples of block `i` sit in the joined list -/
 
@@ -184,6 +184,6 @@ theorem forge_wait_block_zeros (b : BP) (f : Forged) (h : forgeBP b = .ok f) (i 
   obtain ⟨hb, n, hblk⟩ := forge_block_call b f h i hi
   refine ⟨hb, ?_⟩
   rw [hblk, forgeFn_wait _ hw]
-  exact Blk.eval?_zeros _ _ _ _ rfl
+  exact Blk.evalZeros _ _ _ _ rfl
 
 end BB
